@@ -699,7 +699,9 @@ class World:
             panics, aborts = self.srv.panics()
             loc, msg = (aborts[-1][1] if aborts and aborts[-1][1] else ("?", "?"))
             self.shapes[exp.shape] += 1
-            v = Violation("handler-abort", tuple(sorted(exp.props | {"C05"})),
+            # (C06: the session of the connection whose handler unwound has ended - its socket is closed - and nothing
+            # of it was cleaned up)
+            v = Violation("handler-abort", tuple(sorted(set(exp.props) | {"C05", "C06"})),
                           "handler-abort|%s|%s|%s" % (loc, msg, exp.verb),
                           "handler aborted (%s: %s) after %r" % (loc, msg, self.history[-1][1]),
                           self.step_no)
